@@ -553,7 +553,7 @@ pub fn gen_scenario(t: &mut Tape, p: &Profile) -> Scenario {
         scripted: Vec::new(),
         stall_pm: 0,
         stall_max_ns: 0,
-        addr_in_use_pm: 0,
+        addr_in_use_pm: 0, addr_in_use_from_round: 0,
         tick_base_ns: tick_base,
         tick_jitter_ns: tick_jitter,
     };
